@@ -164,6 +164,12 @@ impl GroupKey {
 
     #[inline]
     fn compute_prehash(bucket_val: Option<u64>, groups: &[GroupValue]) -> u64 {
+        // The ungrouped key is also built as `GroupKey { prehash: 0, .. }` by the columnar path
+        // (columnar.rs) and by finalization.rs. Keys that are `Eq` must hash alike, otherwise the
+        // sink holds two entries for one group and `into_partial` keeps only one of them.
+        if bucket_val.is_none() && groups.is_empty() {
+            return 0;
+        }
         let mut hasher = AHashRandomState::with_seeds(0, 0, 0, 0).build_hasher();
         bucket_val.hash(&mut hasher);
         for g in groups {
